@@ -351,12 +351,19 @@ func (g *Generator) AdjustOomScoreAdj(score *nri.OptionalInt) {
 
 // AdjustDevices adjusts the (Linux) devices in the OCI Spec.
 func (g *Generator) AdjustDevices(devices []*nri.LinuxDevice) {
+	// apply removals first, so that adding a device wins over removing it
+	// regardless of their order in the list
+	for _, d := range devices {
+		if key, marked := d.IsMarkedForRemoval(); marked {
+			g.RemoveDevice(key)
+		}
+	}
 	for _, d := range devices {
 		key, marked := d.IsMarkedForRemoval()
-		g.RemoveDevice(key)
 		if marked {
 			continue
 		}
+		g.RemoveDevice(key)
 		g.AddDevice(d.ToOCI())
 		major, minor, access := &d.Major, &d.Minor, d.AccessString()
 		g.AddLinuxResourcesDevice(true, d.Type, major, minor, access)
@@ -400,10 +407,17 @@ func (g *Generator) AdjustMounts(mounts []*nri.Mount) error {
 		return nil
 	}
 
-	propagation := ""
+	// apply removals first, so that adding a mount wins over removing it
+	// regardless of their order in the list
 	for _, m := range mounts {
 		if destination, marked := m.IsMarkedForRemoval(); marked {
 			g.RemoveMount(destination)
+		}
+	}
+
+	propagation := ""
+	for _, m := range mounts {
+		if _, marked := m.IsMarkedForRemoval(); marked {
 			continue
 		}
 
